@@ -1,9 +1,249 @@
+/-
+  GV.Props.C11 — Go and JavaScript values convert as documented and round-trip.
+
+  Models: GV.Model.Utf16 (the two transcoding loops), GV.Model.JsConv (`$externalize`, `$internalize`, wrapper cache),
+  GV.Model.CbGuard (`$send/$recv/$block/$schedule`).  Spec: GV.Spec.JsTable (documented table of js/js.go, round-trip
+  domain), GV.Spec.Utf8 (Unicode).
+-/
 import GV.Model.JsConv
 import GV.Model.CbGuard
 import GV.Spec.JsTable
-import GV.Props.C14
+import GV.Proofs.Utf16
+import GV.Proofs.JsConv
 
 namespace GV.Props.C11
-open GV.JsConv GV.Utf16
+open GV.JsConv GV.Utf16 GV.Utf8 GV.Spec.JsTable GV.Spec.Utf8
+
+/-! ## strings -/
+
+/-- **utf16_roundtrip** — `$internalize($externalize(s, $String), $String) = s` for every well-formed UTF-8 byte string
+    (any scalar values, including non-BMP ones, which travel as surrogate pairs). -/
+theorem utf16_roundtrip (s : List Nat) (h : ValidUtf8 s) : internalizeString (externalizeString s) = s := by
+  obtain ⟨rs, hs, rfl⟩ := h
+  rw [GV.Proofs.Utf16.externalize_valid rs hs, GV.Proofs.Utf16.internalize_valid rs hs]
+
+/-- **utf16_roundtrip_converse** — `$externalize($internalize(u, $String), $String) = u` for every JavaScript string
+    without lone surrogates. -/
+theorem utf16_roundtrip_converse (u : List Nat) (h : ValidUtf16 u) : externalizeString (internalizeString u) = u := by
+  obtain ⟨rs, hs, rfl⟩ := h
+  rw [GV.Proofs.Utf16.internalize_valid rs hs, GV.Proofs.Utf16.externalize_valid rs hs]
+
+example : ValidUtf8 [0x61, 0xF0, 0x9F, 0x98, 0x80] := ⟨[0x61, 0x1F600], by decide, by decide⟩
+
+/-- an invalid byte (any byte ≥ 0x80 that does not start a well-formed sequence here: alone) becomes U+FFFD; the
+    conversion is therefore not injective on arbitrary Go strings and such strings do not round-trip. -/
+theorem externalize_invalid_byte (b : Nat) (h1 : 0x80 ≤ b) (h2 : b < 256) : externalizeString [b] = [0xFFFD] := by
+  have hd : decodeRune [b] 0 = (0xFFFD, 1) := by
+    unfold decodeRune
+    simp only [charCodeAt, List.getElem?_cons_zero]
+    have hn : ([b] : List Nat)[0 + 1]? = none := by simp
+    rw [hn]
+    by_cases hc : b < 0xC0
+    · exact GV.Props.C14.core_cont b _ _ _ h1 hc
+    · exact GV.Props.C14.core_bad1 b none _ _ (by omega) rfl
+  rw [GV.Proofs.Utf16.externalizeString_eq]
+  simp [extLoop, hd, unitsOf]
+
+/-- a lone low surrogate becomes U+FFFD (EF BF BD) -/
+theorem internalize_lone_low (l : Nat) (h : 0xDC00 ≤ l ∧ l ≤ 0xDFFF) : internalizeString [l] = [0xEF, 0xBF, 0xBD] := by
+  rw [GV.Proofs.Utf16.internalizeString_eq, GV.Proofs.Utf16.intLoop_cons_low l [] (by omega)]
+  rw [GV.Props.C14.encode_nonscalar (l : Int) (by unfold isScalar; simp; omega)]
+  simp [intLoop]
+
+/-- a high surrogate at the END of a JavaScript string becomes the four bytes F0 80 80 80 — not U+FFFD and not
+    valid UTF-8 (`charCodeAt` past the end is NaN and `$encodeRune(NaN)` takes the 4-byte branch). -/
+theorem internalize_lone_high_end (h : Nat) (hh : 0xD800 ≤ h ∧ h ≤ 0xDBFF) : internalizeString [h] = [0xF0, 0x80, 0x80, 0x80] := by
+  rw [GV.Proofs.Utf16.internalizeString_eq]
+  simp [intLoop, hh, encodeRuneNaN]
+
+/-- a high surrogate followed by ANY unit consumes that unit (there is no test that it is a low surrogate): the
+    pair becomes the single rune `(h - 0xD800) * 0x400 + l - 0xDC00 + 0x10000`; e.g. "\uD800a" becomes U+2461. -/
+theorem internalize_high_then_any (h l : Nat) (rest : List Nat) (hh : 0xD800 ≤ h ∧ h ≤ 0xDBFF) :
+    internalizeString (h :: l :: rest) =
+      encodeRune (((h : Int) - 0xD800) * 0x400 + (l : Int) - 0xDC00 + 0x10000) ++ internalizeString rest := by
+  rw [GV.Proofs.Utf16.internalizeString_eq, GV.Proofs.Utf16.internalizeString_eq, GV.Proofs.Utf16.intLoop_cons_high h l rest hh]
+
+example : internalizeString [0xD800, 0x61] = [0xE2, 0x91, 0xA1] := by decide
+
+/-! ## scalars and 64-bit integers -/
+
+/-- **roundtrip_scalar** — every documented scalar (bool, integers in range, 64-bit integers with |v| ≤ 2^53, floats by
+    token identity — NaN, ±Inf, every finite token — except `-0`, well-formed UTF-8 strings) round-trips. -/
+theorem roundtrip_scalar (τ : Ty) (v : GoVal) (h : RTScalar τ v) (hz : v ≠ .num .negZero) :
+    ∃ j, externalize τ v = .ok j ∧ internalize τ j = .ok v :=
+  GV.Proofs.JsConv.roundtrip_scalar τ v h hz
+
+/-- the sign of zero IS lost: `-0` externalizes to `-0` and internalizes (`parseFloat(String(-0))`) to `+0`. -/
+theorem roundtrip_negzero :
+    (externalize .f64 (.num .negZero)).bind (internalize .f64) = .ok (.num (.int 0)) := by rfl
+
+/-- **mk64_exact** — `new $Uint64(0, n)` represents `n mod 2^64` for EVERY integer-valued double n (no bound), and
+    `new $Int64(0, n)` the same residue with the high word read as signed. -/
+theorem mk64_exact (n : Int) :
+    (∃ hi lo, mk64 false (.int n) = .i64 hi lo ∧ hi * 4294967296 + (lo : Int) = n % 18446744073709551616) ∧
+    (∃ hi lo, mk64 true (.int n) = .i64 hi lo ∧ (hi * 4294967296 + (lo : Int)) % 18446744073709551616 = n % 18446744073709551616) :=
+  GV.Proofs.JsConv.mk64_exact n
+
+/-- **roundtrip64_exact** — a 64-bit value round-trips exactly when it is a double (`roundInt v = v`), in
+    particular whenever |v| ≤ 2^53. -/
+theorem roundtrip64_exact (signed : Bool) (hi : Int) (lo : Nat) (hlo : lo < 4294967296)
+    (hhi : if signed then -2147483648 ≤ hi ∧ hi ≤ 2147483647 else 0 ≤ hi ∧ hi ≤ 4294967295)
+    (hex : roundInt (hi * 4294967296 + (lo : Int)) = hi * 4294967296 + (lo : Int)) :
+    (externalize (if signed then .i64 else .u64) (.i64 hi lo)).bind (internalize (if signed then .i64 else .u64)) = .ok (.i64 hi lo) :=
+  GV.Proofs.JsConv.roundtrip64_exact signed hi lo hlo hhi hex
+
+/-- **roundtrip64_beyond** — what happens beyond 2^53: the value is rounded to the nearest double (ties to even) and
+    read back modulo 2^64: `math.MaxUint64` comes back as 0, `math.MaxInt64` as `math.MinInt64`, 2^53+1 as 2^53. -/
+theorem roundtrip64_beyond :
+    (externalize .u64 (.i64 4294967295 4294967295)).bind (internalize .u64) = .ok (.i64 0 0) ∧
+    (externalize .i64 (.i64 2147483647 4294967295)).bind (internalize .i64) = .ok (.i64 (-2147483648) 0) ∧
+    (externalize .i64 (.i64 2097152 1)).bind (internalize .i64) = .ok (.i64 2097152 0) := by
+  refine ⟨?_, ?_, ?_⟩ <;> rfl
+
+/-! ## composites: round trip by structural induction -/
+
+/-- the inductive round-trip domain (GV.Proofs.JsConv.RT): bool, in-range integers, 64-bit integers with |v| ≤ 2^53,
+    floats, valid UTF-8 strings, nil slices, and slices — nested to any depth — of such values (numeric element kinds
+    travel as typed arrays of the documented class, all others as Arrays). -/
+def roundtrip_full : Prop :=
+  ∀ (τ : Ty) (v : GoVal), GV.Proofs.JsConv.RT τ v → ∃ j, externalize τ v = .ok j ∧ internalize τ j = .ok v
+
+/-- the full statement is FALSE: `-0` (witness `float64(-0)`). -/
+theorem roundtrip_counterexample_negzero : ¬ roundtrip_full := by
+  intro h
+  obtain ⟨j, h1, h2⟩ := h .f64 (.num .negZero) (by simp [GV.Proofs.JsConv.RT, RTScalar])
+  have : j = .num .negZero := by
+    have : externalize .f64 (.num .negZero) = .ok (.num .negZero) := by rfl
+    rw [this] at h1; cases h1; rfl
+  subst this
+  have : internalize .f64 (.num .negZero) = .ok (.num (.int 0)) := by rfl
+  rw [this] at h2
+  cases h2
+
+/-- the full statement is FALSE also for the nil map (witness `map[string]bool(nil)`): it comes back empty, not nil. -/
+theorem roundtrip_counterexample_nilmap :
+    ¬ (∃ j, externalize (.map .bool) .nil = .ok j ∧ internalize (.map .bool) j = .ok .nil) := by
+  intro ⟨j, h1, h2⟩
+  have : externalize (.map .bool) .nil = .ok .null := by rfl
+  rw [this] at h1; cases h1
+  have : internalize (.map .bool) .null = .ok (.map [] []) := by rfl
+  rw [this] at h2
+  cases h2
+
+theorem roundtrip_nilmap (e : Ty) : (externalize (.map e) .nil).bind (internalize (.map e)) = .ok (.map [] []) := by
+  simp [externalize, internalize, Except.bind]
+
+/-- **roundtrip** (`roundtrip_partial`) — for every (τ, v) of the inductive domain that contains no `-0` (`clean`,
+    decidable), `$internalize($externalize(v, τ), τ) = v`; by induction on the value (slices nested to any depth).
+    String-keyed maps and structs with exported fields are NOT covered by this theorem (see `roundtrip_maps_structs`);
+    they are covered by the differential run only. -/
+theorem roundtrip (τ : Ty) (v : GoVal) (h : GV.Proofs.JsConv.RT τ v) (hc : GV.Proofs.JsConv.clean τ v = true) :
+    ∃ j, externalize τ v = .ok j ∧ internalize τ j = .ok v :=
+  GV.Proofs.JsConv.roundtrip τ v h hc
+
+example : GV.Proofs.JsConv.RT (.slice (.slice (.int .i8))) (.slice [.slice [.num (.int (-128)), .num (.int 127)], .nil]) ∧
+    GV.Proofs.JsConv.clean (.slice (.slice (.int .i8))) (.slice [.slice [.num (.int (-128)), .num (.int 127)], .nil]) = true := by
+  simp [GV.Proofs.JsConv.RT, GV.Proofs.JsConv.RTList, GV.Proofs.JsConv.domTy, GV.Proofs.JsConv.clean, GV.Proofs.JsConv.cleanList,
+    RTScalar, inRange]
+
+/-- the remaining part of the round-trip clause, stated and NOT proved here: non-nil string-keyed maps with distinct
+    well-formed keys and structs (exported fields; unexported fields holding their zero value) over round-tripping
+    element values round-trip. -/
+def roundtrip_maps_structs : Prop :=
+  (∀ (e : Ty) (ks : List (List Nat)) (vs : List GoVal), ks.length = vs.length → ks.Nodup → (∀ k ∈ ks, ValidUtf8 k) →
+      (∀ v ∈ vs, ∃ j, externalize e v = .ok j ∧ internalize e j = .ok v) →
+      ∃ j, externalize (.map e) (.map ks vs) = .ok j ∧ internalize (.map e) j = .ok (.map ks vs)) ∧
+  (∀ (flds : List Fld) (tys : List Ty) (fs : List GoVal), flds.length = tys.length → tys.length = fs.length →
+      (flds.map (·.name)).Nodup → searchJs (.struct flds tys) (.struct fs) = none → wrapJs (.struct flds tys) .null = none →
+      (∀ i (hi : i < fs.length) (h1 : i < flds.length) (h2 : i < tys.length),
+        if flds[i].exported then ∃ j, externalize tys[i] fs[i] = .ok j ∧ internalize tys[i] j = .ok fs[i] else fs[i] = zeroVal tys[i]) →
+      ∃ j, externalize (.struct flds tys) (.struct fs) = .ok j ∧ internalize (.struct flds tys) j = .ok (.struct fs))
+
+/-! ## the documented table -/
+
+/-- **documented_table (Go → JavaScript)** — for every row of the table, a non-nil Go value of that type class arrives as
+    a JavaScript value of the documented class (structs wrapping a `*js.Object` in their first field excepted, as the
+    package comment says). -/
+theorem documented_table_ext (τ : Ty) (v : GoVal) (j : JsVal) (c : JsClass)
+    (hdoc : docJsClass τ = some c) (hx : externalize τ v = .ok j) (hnn : j ≠ .null) (hs : searchJs τ v = none) :
+    classOf j = c :=
+  GV.Proofs.JsConv.documented_table_ext τ v j c hdoc hx hnn hs
+
+/-- **documented_table (JavaScript → `any`)** — `Interface()` of a JavaScript value of a documented class yields the
+    documented Go dynamic type. -/
+theorem documented_table_back (j : JsVal) (g : GoVal) (τ : Ty)
+    (hdoc : docBack (classOf j) = some τ) (hw : ∀ id, j ≠ .wrapper id) (hi : internIface j = .ok g) :
+    ∃ w, g = .iface τ w :=
+  GV.Proofs.JsConv.documented_table_back j g τ hdoc hw hi
+
+/-! ## exposed functions -/
+
+/-- **wrapper_call_spec** — calling the JavaScript wrapper of a Go `func(x τ) τ` with behaviour `f` on `j` internalizes the
+    argument by τ, applies `f`, externalizes the result by τ ("receive converted arguments, return converted results"). -/
+theorem wrapper_call_spec (τ : Ty) (f : GoVal → R GoVal) (j : JsVal) :
+    callWrapper [τ] [τ] false (fun a => match a with | [x] => (f x).map (fun r => [r]) | _ => .error .illTyped) [j]
+      = (internalize τ j).bind (fun x => (f x).bind (externalize τ)) := by
+  unfold callWrapper
+  simp only [internArgs, List.headD, List.tail]
+  cases h : internalize τ j with
+  | error e => simp [bind, Except.bind]
+  | ok x => cases hf : f x <;> simp [bind, Except.bind, Except.map, hf]
+
+/-- **wrapper_stable** — along any history of externalisations, starting from any cache state, the same Go function
+    always yields the same JavaScript wrapper. -/
+theorem wrapper_stable (c : WrapCache) (h : List Nat) (f w1 w2 : Nat)
+    (h1 : (f, w1) ∈ runHistory c h) (h2 : (f, w2) ∈ runHistory c h) : w1 = w2 :=
+  GV.Proofs.JsConv.wrapper_stable c h f w1 w2 h1 h2
+
+/-- **wrapper_injective** — and distinct Go functions never share a wrapper (from the empty cache). -/
+theorem wrapper_injective (h : List Nat) (f1 f2 w : Nat)
+    (h1 : (f1, w) ∈ runHistory WrapCache.empty h) (h2 : (f2, w) ∈ runHistory WrapCache.empty h) : f1 = f2 :=
+  GV.Proofs.JsConv.wrapper_injective h f1 f2 w h1 h2
+
+/-! ## the callback guard -/
+open GV.CbGuard
+
+/-- the full statement of the property's last clause: a send that has to block inside a JavaScript callback raises the
+    documented error AND leaves channel queues, run queue and counters unchanged. NOT claimed. -/
+def callback_guard_full : Prop :=
+  ∀ (s : St) (v : Nat), s.cur = none → sendBlocks s → send s v = (.errCannotBlock, s)
+
+/-- FALSE today: `$send` enqueues before `$block()` checks. Witness: unbuffered channel, send 7 in a callback. -/
+theorem callback_guard_counterexample : ¬ callback_guard_full := by
+  intro h
+  have := h (init 0) 7 rfl (by decide)
+  revert this
+  decide
+
+/-- the 3-event witness {callback send, goroutine receive, dequeue}: the error is raised, the receiver then gets the
+    value of the failed send, `$noGoroutine` is scheduled, and `$runScheduled` dies with `TypeError: r is not a function`. -/
+theorem callback_guard_witness :
+    (run (init 0) [.send none 7, .recv (some 1), .dequeue]).1 = [.errCannotBlock, .value 7, .typeErrorNotAFunction] := by
+  decide
+
+/-- **callback_guard_partial** — the documented error IS raised, and the only change to the state is the one surviving
+    `$sendQueue` entry owned by `$noGoroutine` (buffer, receive queue, run queue, counters are untouched). -/
+theorem callback_guard_partial (s : St) (v : Nat) (hc : s.cur = none) (hb : sendBlocks s) :
+    send s v = (.errCannotBlock, { s with chan := { s.chan with sendQ := s.chan.sendQ ++ [(none, v)] } }) := by
+  obtain ⟨h1, h2, h3⟩ := hb
+  unfold send
+  simp [h1, h2, h3, block, hc]
+
+theorem callback_guard_partial_recv (s : St) (hc : s.cur = none) (hb : recvBlocks s) :
+    recv s = (.errCannotBlock, { s with chan := { s.chan with recvQ := s.chan.recvQ ++ [none] } }) := by
+  obtain ⟨h1, h2, h3⟩ := hb
+  unfold recv
+  simp [h1, h2, h3, block, hc]
+
+example : sendBlocks (init 0) ∧ (init 0).cur = none := by decide
+
+/-- **callback_guard_damage** — after ANY failed callback send on a channel with nothing else queued, the next goroutine
+    that receives gets the value and `$noGoroutine` lands on the run queue. -/
+theorem callback_guard_damage (s : St) (v g : Nat) (hb : sendBlocks s) (hq : s.chan.sendQ = []) (hbuf : s.chan.buffer = []) :
+    let s1 := (step s (.send none v)).2
+    (step s1 (.recv (some g))).1 = .value v ∧ none ∈ (step s1 (.recv (some g))).2.scheduled := by
+  obtain ⟨h1, h2, h3⟩ := hb
+  have hcap : s.chan.capacity = 0 := by rw [hbuf] at h3; simpa using h3
+  simp [step, send, recv, block, schedule, h1, h2, hcap, hq, hbuf]
 
 end GV.Props.C11
